@@ -377,15 +377,16 @@ static int atk_owner (const NiceAddress *a, char *uname, guint *comp)
 static const uint16_t atk_known[] = { 0x0006, 0x0008, 0x0020, 0x0024, 0x0025, 0x8029, 0x802a, 0x0009, 0 };
 static void atk_fire (void)
 {
-  static const char *names[] = { "rand", "rtp", "req-nomi", "req-wrongkey", "req-truncmi", "resp-forged", "err487-forged", "err403-forged", "indication", "req-conflict" };
+  static const char *names[] = { "rand", "rtp", "req-nomi", "req-wrongkey", "req-truncmi", "resp-forged", "err487-forged", "err403-forged", "indication", "req-conflict", "req-3489-bare" };
   guint live = 0; for (guint i = 0; i < vsocks->len; i++) { VSock *v = vsocks->pdata[i]; if (!v->closed) live++; }
   if (!live) return;
-  int kind; int guard = 0; do kind = arnd () % 10; while (!(atk_mask & (1u << kind)) && ++guard < 100);
+  int kind; int guard = 0; do kind = arnd () % 11; while (!(atk_mask & (1u << kind)) && ++guard < 100);
   VSock *tv = NULL; guint pick = arnd () % live; for (guint i = 0; i < vsocks->len; i++) { VSock *v = vsocks->pdata[i]; if (!v->closed && pick-- == 0) tv = v; }
   NiceAddress to = tv->nsock->addr, me; nice_address_init (&me); nice_address_set_from_string (&me, "10.66.0.1"); nice_address_set_port (&me, 6000 + arnd () % 4);
   guint8 buf[1500]; gsize n = 0; char uname[600] = "a:b"; guint comp = 1; int owner = atk_owner (&to, uname, &comp);
   NiceAddress from = me;
-  if (kind >= 2 && kind != 5 && kind != 6 && kind != 7 && arnd () % 10 < 3) {   /* spoof one of the peer's addresses */
+  if (kind >= 2 && kind != 5 && kind != 6 && kind != 7 && kind != 10 && arnd () % 10 < 3) {   /* spoof one of the peer's addresses (not for datagrams the agent may
+       legitimately treat as application data from that peer: ICE does not authenticate data) */
     for (guint i = 0; i < vsocks->len; i++) { VSock *v = vsocks->pdata[(i + arnd ()) % vsocks->len]; char u2[600]; guint c2; if (!v->closed && atk_owner (&v->nsock->addr, u2, &c2) != owner) { from = v->nsock->addr; break; } } }
   StunAgent sa; StunMessage m; stun_agent_init (&sa, atk_known, STUN_COMPATIBILITY_RFC5389, STUN_AGENT_USAGE_SHORT_TERM_CREDENTIALS | STUN_AGENT_USAGE_USE_FINGERPRINT);
   const uint8_t *wrong = (const uint8_t *) "not-the-ice-password-1"; size_t wl = 22;
@@ -399,6 +400,10 @@ static void atk_fire (void)
       stun_agent_init_request (&sa, &m, buf, sizeof buf, STUN_BINDING); stun_message_append32 (&m, STUN_ATTRIBUTE_PRIORITY, 0x7e0000ff); stun_message_append_flag (&m, STUN_ATTRIBUTE_USE_CANDIDATE);
       stun_message_append64 (&m, STUN_ATTRIBUTE_ICE_CONTROLLING, ~0ULL); stun_message_append_bytes (&m, STUN_ATTRIBUTE_USERNAME, uname, strlen (uname));
       stun_message_append_bytes (&m, STUN_ATTRIBUTE_MESSAGE_INTEGRITY, junk, lens[arnd () % 7]); n = stun_agent_finish_message (&sa, &m, NULL, 0); break; }
+    case 10: { /* classic RFC 3489 request: no magic cookie, no USERNAME, no MESSAGE-INTEGRITY (what a STUN-server discovery agent would validate) */
+      StunAgent old; stun_agent_init (&old, atk_known, STUN_COMPATIBILITY_RFC3489, 0); stun_agent_init_request (&old, &m, buf, sizeof buf, STUN_BINDING);
+      if (arnd () & 1) stun_message_append32 (&m, STUN_ATTRIBUTE_PRIORITY, 0x7e0000ff);
+      n = stun_agent_finish_message (&old, &m, NULL, 0); break; }
     case 8: stun_agent_init_indication (&sa, &m, buf, sizeof buf, STUN_BINDING); if (arnd () & 1) stun_message_append_bytes (&m, STUN_ATTRIBUTE_USERNAME, uname, strlen (uname)); n = stun_agent_finish_message (&sa, &m, NULL, 0); break;
     case 5: case 6: case 7: {
       if (!reqlog_n) return;
